@@ -63,7 +63,9 @@ def quartet_case(run, specs, kind="general", tag="enumerated"):
     cd = run.model.array("eri4 " + " ".join(tok1(s) for s in (c, d, c, d)))
     dab = np.sqrt(np.abs(np.einsum("ijij->ij", ab)))
     dcd = np.sqrt(np.abs(np.einsum("ijij->ij", cd)))
-    tol = TOL * dab[:, :, None, None] * dcd[None, None, :, :] + 1e-300
+    # |(ab|cd)| <= sqrt((ab|ab)(cd|cd)) (theorem eriBlock_schwarz), so TOL * |exact| never exceeds the property's tolerance; it takes
+    # over when the Schwarz product underflows in float64 (shell pairs 20+ bohr apart: values ~1e-180, (cd|cd) ~ 1e-360 -> 0)
+    tol = np.maximum(TOL * dab[:, :, None, None] * dcd[None, None, :, :], TOL * np.abs(model)) + 1e-300
     ls = tuple(s.l for s in specs)
     run.case(("q", ls, kind) + sig(specs), sample={"op": "ElectronRepulsionIntegral.construct_array_contraction",
                                                     "shells": core.describe_basis(specs)})
@@ -142,6 +144,9 @@ def check(run):
         specs[0] = specs[0].copy(center=[float(x) for x in a])
         specs[1] = specs[1].copy(center=[float(x) for x in a + sep * np.array([0.7, -1.0, 0.4])])
         specs[2 + n % 2] = specs[2 + n % 2].copy(center=[float(x) for x in a + sep * np.array([-0.5, 0.3, 0.9])])
+        other = specs[3 - n % 2]
+        specs[3 - n % 2] = other.copy(center=[float(x) for x in a + (np.array(other.center) - np.array(specs[0].center)) * 0.0
+                                              + np.array([0.8, -0.6, 1.1])])
         quartet_case(run, specs, "general", "nearly coincident centres")
     # whole-basis calls, both notations, all coordinate types
     nb = 3 if quick else 16
